@@ -293,9 +293,14 @@ func (server *SugarDB) setExpiry(ctx context.Context, key string, expireAt time.
 		ExpireAt: expireAt,
 	}
 
-	// If the slice of keys associated with expiry time does not contain the current key, add the key.
+	// Keep the index of volatile keys in step with the deadline: a key with a deadline is in it,
+	// a key whose deadline was removed (PERSIST, restore of a key without expiry) is not.
 	server.keysWithExpiry.rwMutex.Lock()
-	if !slices.Contains(server.keysWithExpiry.keys[database], key) {
+	if expireAt == (time.Time{}) {
+		server.keysWithExpiry.keys[database] = slices.DeleteFunc(server.keysWithExpiry.keys[database], func(k string) bool {
+			return k == key
+		})
+	} else if !slices.Contains(server.keysWithExpiry.keys[database], key) {
 		server.keysWithExpiry.keys[database] = append(server.keysWithExpiry.keys[database], key)
 	}
 	server.keysWithExpiry.rwMutex.Unlock()
